@@ -100,6 +100,18 @@ def gen_filler(rng, maxlen=200):
     return b''.join(parts)[:n] if n else b''
 
 
+def decoy_sections(rng):
+    """Bytes that look like complete later sections (a thread-map section and an events chunk holding whole records):
+    a stackshot is an opaque blob and may contain any of them before its end marker."""
+    tm = b''.join(wire.threadmap_entry(0x7000 + i, 0x70 + i, b'decoy%d' % i) for i in range(rng.randrange(0, 3)))
+    recs = [gen_record(rng, 'structured') for _ in range(rng.randrange(1, 4))]
+    out = rng.randbytes(rng.randrange(0, 9)) + wire.TAG_THREADMAP + wire.u(len(tm), 8) + tm
+    out += rng.randbytes(rng.randrange(0, 9)) + wire.TAG_EVENTS + wire.u(64 * len(recs), 8) + bytes(8) + b''.join(recs)
+    if rng.random() < 0.5:
+        out += wire.TAG_MORE_EVENTS
+    return out
+
+
 def gen_cpu_info(rng):
     return rng.choice(({'cpus': rng.randrange(1, 64)}, {}, {'a': [1, 2, {'b': b'\x00\x01'}], 'name': 'AppleT8103'},
                        {'n': rng.getrandbits(40), 's': 'x' * rng.randrange(0, 40)}))
@@ -116,7 +128,7 @@ def split_chunks(rng, records, k=None):
     return chunks
 
 
-def gen_blocks(rng, strings=None, n_logs=None):
+def gen_blocks(rng, strings=None, n_logs=None, entries=()):
     """Random additional-data blocks.  Returns (blocks [(tag, payload)], model dict)."""
     strings = strings or logs.Strings(rng)
     model = {'trace_codes': '', 'kexts': [], 'dyld': None, 'processes': {}, 'images': {}, 'logs': []}
@@ -151,6 +163,13 @@ def gen_blocks(rng, strings=None, n_logs=None):
             if 'ti' in raw:
                 raw['ti'] = logs.pack_ti(4, rng.choice((0, 1, 2, 0x10, 0x11)), rng.randrange(64),
                                          rng.randrange(32), rng.getrandbits(32))
+            # a record of a thread that the thread map (or an earlier record) already attributes to the same pid, under
+            # another process name: the process called exec, or the 20-byte map field holds a cut name
+            known = [(e[0], e[1]) for e in entries if e[0]] + [(r['tid'], r.get('pid', 0)) for b in log_raw_blocks for r in b
+                                                               if r.get('tid')] + [(r['tid'], r.get('pid', 0)) for r in evs if r.get('tid')]
+            if known and rng.random() < 0.35:
+                raw['tid'], raw['pid'] = rng.choice(known)
+                raw['p'] = strings.idx(rng.choice(('ls', 'renamed-by-exec', 'a-process-name-longer-than-the-map-field', 'sh')))
             evs.append(raw)
         log_raw_blocks.append(evs)
         pending.append(('logs', evs))
@@ -203,18 +222,19 @@ def gen_blocks(rng, strings=None, n_logs=None):
     return final, model
 
 
-def gen_v3(rng, m=None, n=None, with_blocks=True, chunks=None):
+def gen_v3(rng, m=None, n=None, with_blocks=True, chunks=None, decoys=None):
     entries = gen_threadmap(rng, n)
     recs = gen_records(rng, m, first_nonzero=False)
     chunks = split_chunks(rng, recs) if chunks is None else chunks
-    blocks, model = gen_blocks(rng) if with_blocks else ([], None)
+    blocks, model = gen_blocks(rng, entries=entries) if with_blocks else ([], None)
+    decoys = rng.random() < 0.3 if decoys is None else decoys
     clean = lambda f, *needles: wire.sanitize_filler(f, *needles)
     spec = wire.V3Spec(
         cpu_info=gen_cpu_info(rng),
         header_kw={'numer': rng.randrange(1, 1000), 'denom': rng.randrange(1, 1000), 'timestamp': rng.getrandbits(48),
                    'wall_secs': rng.randrange(1 << 31), 'wall_usecs': rng.randrange(1000000),
                    'tz_minuteswest': rng.randrange(0, 720), 'tz_dst': rng.randrange(2), 'flags': rng.getrandbits(8)},
-        pre_stackshot=clean(gen_filler(rng), wire.STACKSHOT_END),
+        pre_stackshot=clean(gen_filler(rng) + (decoy_sections(rng) + gen_filler(rng, 40) if decoys else b''), wire.STACKSHOT_END),
         pre_threadmap=clean(gen_filler(rng), wire.TAG_THREADMAP),
         entries=entries,
         threadmap_tail=b'' if rng.random() < 0.8 else rng.randbytes(rng.randrange(1, 12)),
